@@ -216,6 +216,18 @@ def run_case(case, rng):
     case.count("op:normalize")
     if nz is not case.FAIL:
         same(case, nz, {e: p / tot for e, p in ru.items()}, "normalize:not-divided-by-total")
+    # ... also when the total is within 1e-5 of 1 but not 1: normalising still divides by the total
+    dn, rn, _ = gen_dist(rng, case, kind="dict", normalised=True)
+    fac = 1.0 + rng.choice([4e-6, -8e-6, 1e-7, 9e-6])
+    rn2 = {e: p * fac for e, p in rn.items()}
+    tot2 = math.fsum(rn2.values())
+    if tot2 > 0:
+        nz2 = case.call("normalize(total within 1e-5 of 1)", DictDistribution(rn2).normalize)
+        case.count("near_one_totals_normalised")
+        if nz2 is not case.FAIL:
+            g2 = as_dict(nz2)
+            case.check(all(abs(g2.get(e, 0.0) - p / tot2) <= 1e-12 for e, p in rn2.items()) and abs(math.fsum(g2.values()) - 1.0) <= 1e-12,
+                       "normalize:not-divided-by-total", lambda: f"total {tot2!r}: got mass {math.fsum(g2.values())!r}", near_one_total=True)
     # marginalize / mixture on unnormalised weights keep the mass
     mu = case.call("marginalize(unnormalised)", du.marginalize, lambda e: 0)
     if mu is not case.FAIL:
@@ -296,9 +308,16 @@ def run_case(case, rng):
             for e, p_ in r.items():
                 d[e] = p_
         if k in ("dict", "softmax", "table") and len(r) >= 2:
+            g_before = _random.getstate()
             multi = case.call("sample(k)", lambda: d.sample(rng=_random.Random(seed), k=5), facts=dict(kind=k))
+            multi2 = case.call("sample(k)", lambda: d.sample(rng=_random.Random(seed), k=5), facts=dict(kind=k))
+            case.count("batch_samples_compared")
             if multi is not case.FAIL:
                 case.check(len(multi) == 5 and all(r.get(e, 0.0) > 0 for e in multi), "sample(k):invalid", repr(multi))
+            if multi is not case.FAIL and multi2 is not case.FAIL:
+                case.check(list(multi) == list(multi2), "sample:equal-seeds-give-different-sequences",
+                           lambda: f"k=5 batch: {multi!r} vs {multi2!r}", kind=k, batch=True)
+                case.check(_random.getstate() == g_before, "sample(k):global-generator-used-although-one-was-passed", "", kind=k)
     case.sig(k1, k2, k3, len(r1), len(r2), sum(p == 0 for p in r1.values()), buckets, w1, w2, mass > 0, common > 0)
 
 
